@@ -83,6 +83,34 @@ def putDhwTemp (dev : List Char) (t : FloatArg) : Py Frame :=
     | .error e => .error e
     | .ok h => fromAttrs vI "1260".toList ("00".toList ++ h) dev [] dev none
 
+/-- I|1290 from a faked HVAC sensor (`put_outdoor_temp`) -/
+def putOutdoorTemp (dev : List Char) (t : FloatArg) : Py Frame :=
+  match hexFromTemp (tempOfArg t) with
+  | .error e => .error e
+  | .ok h => fromAttrs vI "1290".toList ("00".toList ++ h) dev [] dev none
+
+/-- I|1298 from a faked CO2 sensor (`put_co2_level`; `hex_from_double` refuses what rounds below zero) -/
+def putCo2Level (dev : List Char) (v : FloatArg) : Py Frame :=
+  let arg : Py (Option Dy) := match v with
+    | none => .ok none
+    | some (neg, x) => if neg ∧ (x.mulInt 1).roundHalfEven ≠ 0 then .error .valueError else .ok (some (if neg then ⟨0, 0⟩ else x))
+  match arg with
+  | .error e => .error e
+  | .ok a => match hexFromDouble a 1 with
+    | .error e => .error e
+    | .ok h => fromAttrs vI "1298".toList ("00".toList ++ h) dev [] dev none
+
+/-- I|12A0 from a faked humidity sensor (`put_indoor_humidity`: 1 % resolution) -/
+def putIndoorHumidity (dev : List Char) (v : FloatArg) : Py Frame :=
+  let arg : Py (Option Dy) := match v with
+    | none => .ok none
+    | some (neg, x) => if neg ∧ x.m ≠ 0 then .error .valueError else .ok (some x)
+  match arg with
+  | .error e => .error e
+  | .ok a => match hexFromPercent a false with
+    | .error e => .error e
+    | .ok h => fromAttrs vI "12A0".toList ("00".toList ++ h) dev [] dev none
+
 /-- W|10A0 -/
 def setDhwParams (ctl : List Char) (sp : Bool × Dy) (overrun : Int) (diff : Bool × Dy) : Py Frame :=
   if ¬ floatBetween sp 30 85 then .error .cmdInvalid
